@@ -8,6 +8,7 @@
 //! applies known_findings.json and prints the interface lines.
 
 mod gen;
+mod gen_cos;
 mod mon;
 mod oracle;
 mod report;
@@ -110,6 +111,7 @@ fn main() {
     report::install_panic_hook();
     match property.as_str() {
         "C01" => mon::c01::run(&mut ctx),
+        "C08" => mon::c08::run(&mut ctx),
         "C06" => mon::c06::run(&mut ctx),
         "C07" => mon::c07::run(&mut ctx),
         "C04" => mon::c04::run(&mut ctx),
